@@ -64,6 +64,12 @@ FOCUS6 = {
     "C10": "'every operation pending on the closed object then completes with NNG_ECLOSED or another terminal result, so nothing stays pending forever' for contexts, blocking calls (nng_recvmsg, nng_sendmsg, nng_dial) in other threads, and devices",
 }
 FOCUS7 = {
+    "C01": "large messages (tens of KiB up to a few MiB) and several messages queued back to back on ipc / tcp / websocket, the send side's gather lists (header and body written by one call that is only partially accepted), 'a receiver never observes a truncated, merged, altered or duplicated message', and inproc with messages shared between several receivers",
+    "C03": "'After all sockets are closed and nng_fini returns, every block the library obtained from the (pluggable) allocator has been returned to it, with the size it was allocated with': dialers and listeners, option strings, statistics, stream and HTTP objects, and messages still held in protocol queues (pending retries, surveys, subscriptions, unread receive buffers) when the socket is closed",
+    "C07": "NNG_OPT_SURVEYOR_SURVEYTIME changed on the socket and on contexts between surveys, several surveys in a row with responses still in flight, raw XSURVEYOR / XRESPONDENT sockets, and 'sending a response with no pending survey fails with NNG_ESTATE'",
+    "C08": "'PAIRv1 adds one to a hop count on every traversal', raw PAIR sockets, 'a message with a malformed hop header disconnects its sender and is never delivered', and reconnects: after the first peer has gone a new peer is accepted and the exchange with it is again ordered and lossless",
+    "C17": "sequences that mix header and body operations, nng_msg_dup of messages that were trimmed / grown / carry a header, nng_msg_realloc shrinking and growing around powers of two, nng_msg_reserve and nng_msg_capacity, 'capacity never falls below length'",
+    "C19": "'a known scheme followed by ://' for every scheme of the table (tcp4/tcp6, tls+tcp, ws/wss and their 4/6 forms, ipc / unix / abstract, inproc, socket, udp), paths of ipc / inproc / abstract URLs, 'valid percent-escapes' (%00, %2f vs %2F, truncated escapes, escapes in host, query and fragment), default ports and nng_url_resolve_port",
     "C02": "operations that complete at submission (data already available, immediate errors, zero or already expired timeouts), 'a cancel, stop or timeout code is reported only if the operation had not already completed', nng_sleep_aio, nng_aio_set_expire, one aio object reused for different operations and objects",
     "C11": "'malformed or truncated handshakes' (the 8-byte SP header: wrong magic, version, reserved bytes, sent slowly or partially), peers that connect and then stay silent, many hostile connections at once, 'the listener and all other connections keep working'",
     "C15": "'whenever the library is quiescent, a descriptor polls readable if the corresponding non-blocking operation would succeed (no missed wake-up)' after pipes come and go, after NNG_OPT_SENDBUF / NNG_OPT_RECVBUF changes, and through the REQ/REP and SURVEYOR state machines",
